@@ -19,10 +19,10 @@ SHAPES = {
     "tuple3": ("struct", [(None, "tuple", [None, None, None])]),
     "named1": ("struct", [(None, "named", ["a"])]),
     "named2": ("struct", [(None, "named", ["a", "b"])]),
-    "named3": ("struct", [(None, "named", ["a", "b", "c"])]),
+    "named3": ("struct", [(None, "named", ["z", "a", "m"])]),  # not in alphabetical order: declaration order counts
     "empty-braces": ("struct", [(None, "named", [])]),
     "empty-parens": ("struct", [(None, "tuple", [])]),
-    "enum-mixed": ("enum", [("A", "unit", []), ("B", "tuple", [None]), ("C", "named", ["a", "b"])]),
+    "enum-mixed": ("enum", [("Q", "unit", []), ("B", "tuple", [None]), ("C", "named", ["y", "x"])]),
     "enum-units": ("enum", [("Left", "unit", []), ("Right", "unit", [])]),
     "enum-single": ("enum", [("Only", "tuple", [None, None])]),
     "raw-ident": ("struct", [(None, "named", ["r#type", "b"])]),
